@@ -1,4 +1,6 @@
 import SuppModel.Props.C01
+#print axioms SuppModel.Props.C01.C01_visible
+#print axioms SuppModel.Props.C01.C01_visible_after
 #print axioms SuppModel.Props.C01.C01_visible_partial
 #print axioms SuppModel.Props.C01.C01_keys_grow
 #print axioms SuppModel.Props.C01.C01_outer
